@@ -88,11 +88,11 @@ func main() {
 		spec := driver.Specs()[id]
 		if spec == nil {
 			fmt.Fprintln(os.Stderr, "verif: no check for property", id)
-			os.RemoveAll(e.Scratch)
+			cleanup(e)
 			os.Exit(2)
 		}
 		code := driver.Check(e, spec)
-		os.RemoveAll(e.Scratch)
+		cleanup(e)
 		os.Exit(code)
 	case "survey":
 		if len(os.Args) < 3 {
@@ -110,7 +110,7 @@ func main() {
 			usage()
 		}
 		code := driver.Survey(e, spec)
-		os.RemoveAll(e.Scratch)
+		cleanup(e)
 		os.Exit(code)
 	case "replay":
 		if len(os.Args) < 3 {
@@ -118,12 +118,12 @@ func main() {
 		}
 		e := newEnv()
 		code := replay(e, os.Args[2])
-		os.RemoveAll(e.Scratch)
+		cleanup(e)
 		os.Exit(code)
 	case "warm":
 		e := newEnv()
 		err := e.Prepare("plain", "inst", "race")
-		os.RemoveAll(e.Scratch)
+		cleanup(e)
 		if err != nil {
 			fmt.Fprintln(os.Stderr, "verif warm:", err)
 			os.Exit(2)
@@ -150,4 +150,12 @@ func replay(e *driver.Env, file string) int {
 		return 2
 	}
 	return driver.Replay(e, spec, &doc, file)
+}
+
+func cleanup(e *driver.Env) {
+	if os.Getenv("VERIF_KEEP") != "" {
+		fmt.Fprintln(os.Stderr, "scratch kept at", e.Scratch)
+		return
+	}
+	os.RemoveAll(e.Scratch)
 }
